@@ -52,6 +52,9 @@ def run_one(tmp, h, idx):
         return dict(h, status="passed", checks=int(m.group(1)) if m else None, seconds=secs)
     if "VERIFICATION:- FAILED" in out:
         failed = re.findall(r"Failed Checks: (.*)", out)
+        if failed and all("unwinding assertion" in x for x in failed):
+            # the unwinding bound is too small for this input space: nothing was decided (never a violation)
+            return dict(h, status="undecided", reason="unwinding assertion failed: the harness bound must be raised", seconds=secs)
         # counterexample: concrete playback test, then executed against the scratch copy (= the real function)
         cex = None; replayed = None
         try:
